@@ -877,6 +877,12 @@ def parse_insn_operand(ctx, insn_name, operand_idx, **kwargs):
     else:
         operand_type = int
 
+    if operand_type is types.CodeBlock:
+        # More operands than the metacommand takes before its code block, e.g.
+        # '.repeat 1, 2 { nop }'. Parse the excess operand as an expression; the
+        # compiler reports the wrong operand count
+        operand_type = int
+
     assert operand_type in (str, int)
 
     if operand_type is str:
